@@ -362,14 +362,30 @@ func genC13Restart(r *Rand, tier, profile string) *Case {
 		}
 	}
 	ts = append(ts, tstep{t, Step{K: "restartnode", N: dnode, I: down, G: quiet}})
+	kOf := map[int]int64{20: k}
+	if r.Bool(0.5) {
+		// another session with a will connects to the node soon after its return, keeps pinging,
+		// and loses its link several seconds later
+		at := t + down + int64(r.Range(20, 2000))
+		ts = append(ts, tstep{at, Step{K: "connect", C: 21, N: dnode, S: "dying2", U: "u", T: "p", I: 5, L: []string{willTopic, "will2"}, Q: r.Intn(3)}})
+		ts = append(ts, tstep{at + int64(r.Range(6000, 9000)), Step{K: "cut", C: 21}})
+		kOf[21] = 5
+	}
 	t += down + 16000
 	ts = append(ts, tstep{t, Step{K: "sleep", I: 10000}})
-	return finishLife(c, ts, map[int]int64{20: k})
+	return finishLife(c, ts, kOf)
 }
 
 func judgeWills(w *world) {
+	judgeWillOf(w, 20, "will1")
+	if w.clients[21] != nil {
+		judgeWillOf(w, 21, "will2") // a second session with a will, accepted by the restarted node
+	}
+}
+
+func judgeWillOf(w *world, dyingID int, willTag string) {
 	endMs := w.nowMs()
-	dying := w.clients[20]
+	dying := w.clients[dyingID]
 	if dying == nil || dying.connack == nil || dying.connack.RC != 0 {
 		return
 	}
@@ -379,6 +395,10 @@ func judgeWills(w *world) {
 		if longestGap(w, dying, endMs) > 2*f.k*1000 {
 			f.cause = "silence"
 		}
+	}
+	if f.cause == "" && dyingID == 21 && dying.sawClose && dying.disconnAt < 0 {
+		// the broker ended it on its own: an end without DISCONNECT all the same
+		f.cause, f.causeAt = "closed-by-broker", dying.closeAt
 	}
 	if f.cause == "" {
 		return
@@ -393,7 +413,7 @@ func judgeWills(w *world) {
 	sort.Ints(ids)
 	for _, id := range ids {
 		cl := w.clients[id]
-		if id == 20 || cl.connack == nil || cl.connack.RC != 0 {
+		if id == 20 || id == 21 || cl.connack == nil || cl.connack.RC != 0 {
 			continue
 		}
 		if !w.nodes[cl.node].alive || !w.clientAliveThrough(cl) {
@@ -408,7 +428,7 @@ func judgeWills(w *world) {
 		got := 0
 		for _, ex := range cl.exch {
 			// nothing but the will is ever published in this profile
-			if ex.tag == "will1" || (dying.opts.WillPayload == "" && ex.tag == "" && ex.topic == willTopic) {
+			if ex.tag == willTag || (dying.opts.WillPayload == "" && ex.tag == "" && ex.topic == willTopic) {
 				got++
 				if ex.topic != willTopic {
 					w.o.violate("C13", "will-topic-altered", len(w.c.Steps), endMs, map[string]string{"cause": f.cause}, "watcher %d received the will on topic %q, the will topic is %q", id, ex.topic, willTopic)
